@@ -9,7 +9,7 @@ import sys
 from .. import core, engine, gen
 from ..core import Rng
 from ..engine import Outcome
-from .base import PropBase, STD, exec_args, gen_run, plan_of, not_meta, crashed, classify_diff
+from .base import PropBase, STD, exec_args, gen_run, plan_of, not_meta, crashed, classify_diff, split_static_function, K8_SIG, K9_KIND
 from .history import describe_history
 
 
@@ -205,12 +205,19 @@ class C20(PropBase):
             ms = core.multiset(r.findings, not_meta)
             if ms != mr or not r.xml_ok:
                 oa, ob = core.diff_multisets(ms, mr)
-                kind = classify_diff(oa, ob) if r.xml_ok else "malformed-output"
+                oa, ob, k8 = split_static_function(oa, ob)
+                if k8:
+                    out.violate("findings-differ", K8_SIG, ["recovery run with build dir vs fresh run: staticFunction findings absent"], ids="-staticFunction")
+                if not (oa or ob) and r.xml_ok:
+                    continue
+                kind = classify_diff(oa, ob, list(mr)) if r.xml_ok else "malformed-output"
                 ids = ",".join(sorted(set(("+" if side == 0 else "-") + f.id for side, lst in enumerate((oa, ob)) for f, _ in lst)))
                 det = ["recovery run (%s) after victim (%s, chunk=%s) was killed at op %d/%d: %s" % (
                     " ".join(exec_args(rec)), " ".join(exec_args(victim)), victim.get("chunk"), k, K, where),
                     "edit between: %s" % (scn["edit"]["desc"] if scn.get("edit") else "none")] + core.fmt_diff(oa, ob, "after-kill", "fresh")
-                if kind == "missing-unmatchedSuppression" and closed > 0:
+                if kind == K9_KIND:
+                    sig = K9_KIND + " after a killed run"
+                elif kind == "missing-unmatchedSuppression" and closed > 0:
                     # one shape, wherever the kill lands: see known_findings.json
                     sig = "missing-unmatchedSuppression after kill once a unit's cache file was complete"
                 else:
